@@ -207,10 +207,18 @@ func (v *VecDense) CloneFromVec(a Vector) {
 		return
 	}
 	n := a.Len()
+	data := v.mat.Data
+	if !v.IsEmpty() && (v.mat.Inc != 1 || n > len(data)) {
+		// The receiver may be a view into a larger matrix or vector.
+		// Elements of its backing slice between its own elements, and
+		// capacity beyond them, then belong to the parent and must not
+		// be used as contiguous storage.
+		data = nil
+	}
 	v.mat = blas64.Vector{
 		N:    n,
 		Inc:  1,
-		Data: use(v.mat.Data, n),
+		Data: use(data, n),
 	}
 	if r, ok := a.(RawVectorer); ok {
 		blas64.Copy(r.RawVector(), v.mat)
